@@ -49,6 +49,36 @@ class _FoldIfExp(ast.NodeTransformer):
         return n
 
 
+def expr_by_kind(fi, at, expr, param, kinds):
+    """{kind: [resolved `expr` as evaluated at node `at`]} over the paths to `at` that an operand of that kind can take"""
+    out = {k: [] for k in kinds}
+    for path in paths_to(fi.node, at):
+        for kind, typenames in kinds.items():
+            feasible = True
+            env = {}
+            for st in path.steps:
+                if st[0] == "cond":
+                    t = _FoldIfExp(param, typenames).visit(_Subst(env).visit(clone(st[1]))) if env else st[1]
+                    v = static_isinstance(t, param, typenames)
+                    if v is not None and v != st[2]:
+                        feasible = False
+                        break
+                else:
+                    val = _FoldIfExp(param, typenames).visit(_Subst(env).visit(clone(st[2])))
+                    if st[1] == param:
+                        continue
+                    env[st[1]] = val
+            if feasible:
+                out[kind].append(_FoldIfExp(param, typenames).visit(_Subst(env).visit(clone(expr))))
+    return out
+
+
+def identity_on(fi, param, typenames):
+    """every return an operand of this class can reach hands the operand back unchanged"""
+    r = returns_by_kind(fi, param, {"k": tuple(typenames)})["k"]
+    return bool(r) and all(norm(e) == param for _r, e in r)
+
+
 def returns_by_kind(fi, param, kinds):
     """{kind: [(return node, resolved expression)]}   kinds: {kind name: tuple of class names the operand is an instance of}"""
     out = {k: [] for k in kinds}
